@@ -32,7 +32,9 @@ def resident_desc(draw, inc_ok):
     return {'ts': draw(st.sampled_from([1.0, 1.0, 1.5, 2.0, 0.5])),
             'inc': draw(st.integers(0, 1)) if inc_ok else 0,
             'step': step, 'deriver': draw(st.integers(0, 3)) == 0,
-            'chain': step and draw(st.booleans())}
+            'chain': step and draw(st.booleans()),
+            # a deriver may be listed under `processes` (legacy layout)
+            'legacy': draw(st.booleans())}
 
 
 # state values: 0 (falsy, and different from the sub-schema defaults 7 / 9) often
